@@ -310,6 +310,8 @@ def swap_exception_signature(e, mpo, algo0, jw_eff):
     import traceback
     tb = traceback.extract_tb(e.__traceback__)
     line = tb[-1].line or ""
+    if not any(fr.name == "try_swap_site" for fr in tb):
+        return None
     if n_lib_terms(mpo) == 1:
         return "try_swap_site:single-term-operator:raises"
     if isinstance(e, AssertionError) and "len(new_out_ops3)" in line:
@@ -373,7 +375,7 @@ def check_mpo_swaps(run, rng, kind):
         try:
             mpo.try_swap_site(newm, jw, algo=algo)
         except Exception as e:
-            sig = swap_exception_signature(e, mpo, algo0, jw_eff)
+            sig = swap_exception_signature(e, mpo, algo0, jw_eff) or "try_swap_site:raises"
             run.violation(sig, dict(replay, seq=seq, error=repr(e)[:300]))
             return True, None
         hn = mpo.todense()
@@ -494,7 +496,7 @@ def check_pair_sweeps(run, rng, kind):
             try:
                 mpo.try_swap_site(mps.model, jw)
             except Exception as e:
-                run.violation(swap_exception_signature(e, mpo, algo0, jw_eff),
+                run.violation(swap_exception_signature(e, mpo, algo0, jw_eff) or "try_swap_site:raises",
                               dict(replay, log=log, cidx=cidx, algo0=algo0, error=repr(e)[:300]))
                 return True, None
             after = [b.dofs for b in mps.model.basis]
@@ -587,7 +589,9 @@ def check_gs_with_ofs(run, rng, kind):
     w, v = np.linalg.eigh(h0[np.ix_(mask, mask)])
     gap = w[1] - w[0] if len(w) > 1 else 1.0
     model = tm.fresh_model()
-    mpo = Mpo(model)
+    jw_eff = jw and jw_effective(tm)
+    algo0 = pick_algo0(rng, jw_eff)
+    mpo = Mpo(model, algo=algo0)
     mps = L.random_mps(model, rng, qntot, tm.dim)
     if mps is None:
         run.count("B3:random-mps-rejected")
@@ -598,11 +602,12 @@ def check_gs_with_ofs(run, rng, kind):
     mps.optimize_config.algo = str(rng.choice(["direct", "davidson"]))
     L.seed_legacy(rng)
     run.count(f"B3:gs:kind={kind}"), run.count(f"B3:gs:jw={jw}")
-    replay = dict(part="B3-gs", model=tm.describe(), jw=jw, crit=crit.name, qntot=qntot.tolist())
+    replay = dict(part="B3-gs", model=tm.describe(), jw=jw, crit=crit.name, qntot=qntot.tolist(), algo0=algo0)
     try:
         energies, res = optimize_mps(mps, mpo)
     except Exception as e:
-        run.violation(f"optimize_mps+ofs:raises:{type(e).__name__}:jw={jw}", dict(replay, error=repr(e)[:300]))
+        sig = swap_exception_signature(e, mpo, algo0, jw_eff) or f"optimize_mps+ofs:raises:{type(e).__name__}:jw={jw}"
+        run.violation(sig, dict(replay, error=repr(e)[:300], where="optimize_mps"))
         return True, None
     scale = max(1.0, absmax(h0))
     emin = float(np.min(energies))
@@ -652,7 +657,9 @@ def check_evolve_with_ofs(run, rng, kind):
     h0 = tm.dense_h()
     qntot, sdim = pick_sector(tm, rng, 3)
     model = tm.fresh_model()
-    mpo = Mpo(model)
+    jw_eff = jw and jw_effective(tm)
+    algo0 = pick_algo0(rng, jw_eff)
+    mpo = Mpo(model, algo=algo0)
     mps = L.random_mps(model, rng, qntot, tm.dim)
     if mps is None:
         run.count("B3:random-mps-rejected")
@@ -665,13 +672,16 @@ def check_evolve_with_ofs(run, rng, kind):
     mps.evolve_config = EvolveConfig(EvolveMethod.tdvp_ps2)
     run.count(f"B3:evolve:kind={kind}"), run.count(f"B3:evolve:jw={jw}")
     replay = dict(part="B3-evolve", model=tm.describe(), jw=jw, crit=crit.name, qntot=qntot.tolist(), dt=dt, nstep=nstep,
-                  psi0=tolist(psi0))
+                  psi0=tolist(psi0), algo0=algo0)
     cur = mps
     try:
         for _ in range(nstep):
             cur = cur.evolve(mpo, dt)
     except Exception as e:
-        run.violation(f"evolve+ofs:raises:{type(e).__name__}:jw={jw}", dict(replay, error=repr(e)[:300]))
+        import traceback
+        sig = swap_exception_signature(e, mpo, algo0, jw_eff) or f"evolve+ofs:raises:{type(e).__name__}:jw={jw}"
+        run.violation(sig, dict(replay, error=repr(e)[:300], where="Mps.evolve(tdvp_ps2)",
+                                tb=[f"{fr.name}:{fr.line}" for fr in traceback.extract_tb(e.__traceback__)[-3:]]))
         return True, None
     order = order_of(cur.model, tm)
     order_mpo = order_of(mpo.model, tm)
